@@ -15,7 +15,7 @@ from .terms import PURE_STR_METHODS, T, TermRule, destruct, is_opaque, term_of, 
 
 MUTATING_METHODS = {"append", "extend", "insert", "pop", "remove", "clear", "sort", "reverse", "update", "setdefault", "popitem", "discard", "add",
                     "put", "close", "seek", "write", "send", "sendall", "settimeout", "release_conn", "drain_conn", "connect", "request", "getresponse",
-                    "start_connect", "set_tunnel", "shutdown", "flush", "decompress", "read", "readinto", "read1", "readline"}
+                    "start_connect", "set_tunnel", "shutdown", "flush", "decompress", "read", "readinto", "read1", "readline", "_safe_read"}
 
 
 class GenRule(TermRule):
@@ -27,6 +27,12 @@ class GenRule(TermRule):
         self.quiet = set(quiet)                   # call texts that are pure and uninteresting (logging, ...)
         self.pure_self = set(pure_self)           # self-methods that are pure lookups: term only, no event
         self.field_consts = dict(field_consts or {})
+
+    def _raise(self, st, node, name, cls):
+        s2 = st.copy()
+        s2.log(node, f"{name} raises {cls}")
+        s2.ts["fault"] = (name, cls)
+        return Out("raise", s2, exc(cls))
 
     def ev(self, st, *e):
         loops = st.ts.get("loops", ())
@@ -108,7 +114,7 @@ class GenRule(TermRule):
                 outs = [Out("normal", s, tv(T(name, *args)))]
                 r = self.raising.get(name) or self.raising.get(text)
                 if r:
-                    outs.append(Out("raise", st.copy(), exc(r)))
+                    outs.append(self._raise(st, node, name, r))
                 return outs
         if isinstance(f, ast.Attribute) and recv is not None:
             leaf = f.attr
@@ -124,9 +130,7 @@ class GenRule(TermRule):
                 outs = [Out("normal", s, tv(T(nm, *args)))]
                 r = self.raising.get(leaf)
                 if r:
-                    s2 = st.copy()
-                    s2.log(node, f"{nm} raises {r}")
-                    outs.append(Out("raise", s2, exc(r)))
+                    outs.append(self._raise(st, node, nm, r))
                 return outs
             if isinstance(f.value, ast.Call) and ast.unparse(f.value.func) == "super":
                 s = st.copy()
@@ -138,14 +142,14 @@ class GenRule(TermRule):
                 outs = [Out("normal", s, tv(T(f"{recv.sym}.{leaf}", *args)))]
                 r = self.raising.get(leaf)
                 if r:
-                    outs.append(Out("raise", st.copy(), exc(r)))
+                    outs.append(self._raise(st, node, f"{recv.sym}.{leaf}", r))
                 return outs
             if recv.sym and recv.kind == "unk":
                 # a method of some other object: a term (pure unless declared raising)
                 outs = [Out("normal", st, tv(T(f"{recv.sym}.{leaf}", *args)))]
                 r = self.raising.get(leaf)
                 if r:
-                    outs.append(Out("raise", st.copy(), exc(r)))
+                    outs.append(self._raise(st, node, f"{recv.sym}.{leaf}", r))
                 return outs
         if isinstance(f, ast.Name):
             if f.id == "cls" or (isinstance(f, ast.Name) and q and q in it.m.classes):
@@ -162,7 +166,7 @@ class GenRule(TermRule):
                 outs = [Out("normal", s, tv(T(leaf, *args)))]
                 r = self.raising.get(leaf)
                 if r:
-                    outs.append(Out("raise", st.copy(), exc(r)))
+                    outs.append(self._raise(st, node, leaf, r))
                 return outs
         return None
 
